@@ -40,7 +40,7 @@ LEAN_DIR = os.path.join(VERIF, 'lean')
 GEN = os.path.join(LEAN_DIR, 'SFModel', 'Gen', 'LocMap.lean')
 
 BOUND_BLOCK = re.compile(r"            if offset_apply:\n                # positions are shifted.*?(?=            return slice\(start, stop, step\))", re.S)
-STOP_BLOCK = re.compile(r"                    if key\.step\.__class__ is int and key\.step < 0:\n.*?                        pos \+= 1 #type: ignore\n(?=\n                yield pos)", re.S)
+STOP_BLOCK = re.compile(r"                    if key\.step is not None and key\.step < 0:\n.*?                        pos \+= 1 #type: ignore\n(?=\n                yield pos)", re.S)
 
 # (id, kind, file, old, new, what) - `old` must occur exactly once (a compiled regex: exactly one match)
 M = [
@@ -55,11 +55,11 @@ M = [
     ('A08', 'semantic', IX, "                    if offset_apply:\n                        pos += offset #type: ignore\n                else: # step", "                    if not offset_apply:\n                        pos += offset #type: ignore\n                else: # step", 'offset applied when NOT offset_apply'),
     ('A09', 'semantic', IX, "                else: # step\n                    pos = attr # should be an integer\n\n                if field == SLICE_STOP_ATTR:\n                    # loc", "                else: # step\n                    pos = None # should be an integer\n\n                if field == SLICE_STOP_ATTR:\n                    # loc", 'step dropped'),
     ('A10', 'semantic', IX, "                if field == SLICE_STOP_ATTR:\n                    # loc selections", "                if field == SLICE_START_ATTR:\n                    # loc selections", 'inclusive adjustment on the START field'),
-    ('A11', 'semantic', IX, "key.step.__class__ is int and key.step < 0:", "key.step.__class__ is int and key.step <= 0:", 'step < 0 -> <= 0'),
-    ('A12', 'semantic', IX, "key.step.__class__ is int and key.step < 0:", "key.step.__class__ is int and key.step > 0:", 'step < 0 -> > 0'),
-    ('A13', 'semantic', IX, "key.step.__class__ is int and key.step < 0:", "key.step.__class__ is int or key.step < 0:", 'and -> or'),
-    ('A14', 'semantic', IX, "key.step.__class__ is int and key.step < 0:", "key.step is not None and key.step < 0:", '__class__ is int -> is not None (the candidate FIX of F90: differs for np.integer steps)'),
-    ('A15', 'semantic', IX, "key.step.__class__ is int and key.step < 0:", "key.step < 0:", 'class test dropped (None < 0)'),
+    ('A11', 'semantic', IX, "key.step is not None and key.step < 0:", "key.step is not None and key.step <= 0:", 'step < 0 -> <= 0'),
+    ('A12', 'semantic', IX, "key.step is not None and key.step < 0:", "key.step is not None and key.step > 0:", 'step < 0 -> > 0'),
+    ('A13', 'semantic', IX, "key.step is not None and key.step < 0:", "key.step is not None or key.step < 0:", 'and -> or'),
+    ('A14', 'semantic', IX, "key.step is not None and key.step < 0:", "key.step.__class__ is int and key.step < 0:", 'repair b8dc316 undone (class test: F90 again)'),
+    ('A15', 'semantic', IX, "key.step is not None and key.step < 0:", "key.step < 0:", 'None test dropped (None < 0)'),
     ('A16', 'semantic', IX, "                        pos -= 1 #type: ignore\n                        if pos < 0:", "                        pos -= 2 #type: ignore\n                        if pos < 0:", 'descending stop: pos -= 2'),
     ('A17', 'semantic', IX, "                        if pos < 0:\n                            pos = None # the stop", "                        if pos <= 0:\n                            pos = None # the stop", 'pos < 0 -> <= 0'),
     ('A18', 'semantic', IX, "                            pos = None # the stop label is the first position", "                            pos = 0 # the stop label is the first position", 'below 0 -> 0 instead of None'),
@@ -141,7 +141,7 @@ for c, (a, b) in zip(cs, spans):
     for f in lmg.evaluate(ctx, c, outs[a:b]):
         k = 'oracle' if f.kind == 'oracle' else ('gen_vs_real' if f.what.startswith('translated') else 'hand_vs_real')
         if k == 'oracle' and c.get('npstep'):
-            k = 'oracle_npstep'          # 66 of these on the unchanged tree: finding F90
+            k = 'oracle_npstep'          # oracle failures on the np.int64-step keys (0 on the unchanged tree since b8dc316)
         tot[k] += 1
         if k == 'gen_vs_real' and tot['first'] is None:
             tot['first'] = f.what[:300]
